@@ -3,6 +3,8 @@ pub mod feig;
 pub mod io;
 pub mod packets;
 pub mod sequences;
+#[cfg(feature = "zvt_verif")]
+pub mod verif_hook;
 
 // Reexport everything so we can just use this crate for importing the internals.
 pub use zvt_builder::*;
